@@ -376,6 +376,7 @@ pub fn check_c20a(tier: &str) -> i32 {
     let alpha = alphabet(false);
     let depth = if thorough { 5 } else { 3 };
     let lock = alpha.clone();
+    let stale_cmds = alpha.clone();
     let per_state = move |hist: &[Vec<u8>], md: &Metadata| -> Option<String> {
         // the snapshot describes the state the accessors report ...
         match decode_snapshot(md) {
@@ -398,6 +399,35 @@ pub fn check_c20a(tier: &str) -> i32 {
         let b = canon(&fresh).unwrap_or_else(|e| e);
         if a != b {
             return Some(format!("restored state differs: original {} restored {}", a, b));
+        }
+        // ... a replica that fell behind at any earlier point of the history and catches up
+        // through the snapshot ends up with exactly the sender's state ...
+        for k in 0..hist.len() {
+            let stale = Metadata::new();
+            for c in hist[..k].iter() {
+                let _ = stale.apply(c);
+            }
+            if let Err(e) = stale.restore(&snap) {
+                return Some(format!("restore into a replica that had applied the first {} commands failed: {}", k, e));
+            }
+            let s = canon(&stale).unwrap_or_else(|e| e);
+            if s != a {
+                return Some(format!("a replica that had applied the first {} of {} commands and then restored the snapshot holds {} but the sender holds {}", k, hist.len(), s, a));
+            }
+        }
+        // ... also a replica whose own past differs from the sender's path (states are merged
+        // by content, so the history above is only one way here): one holding the effect of
+        // any single command of the alphabet
+        for c in stale_cmds.iter() {
+            let stale = Metadata::new();
+            let _ = stale.apply(c);
+            if stale.restore(&snap).is_err() {
+                return Some(format!("restore into a replica that had applied {} failed", describe(c)));
+            }
+            let s = canon(&stale).unwrap_or_else(|e| e);
+            if s != a {
+                return Some(format!("a replica that had applied {} and then restored the snapshot holds {} but the sender holds {}", describe(c), s, a));
+            }
         }
         // ... and the pair stays equal in lock-step for two more levels
         for c1 in lock.iter().step_by(3) {
@@ -428,7 +458,7 @@ pub fn check_c20a(tier: &str) -> i32 {
         t0,
         &b,
         0,
-        format!("C18's BFS to depth {}; at every distinct state restore(snapshot()) into a fresh Metadata must give the same canonical state and the pair is stepped in lock-step through a third of the alphabet and then a seventh of it", depth),
+        format!("C18's BFS to depth {}; at every distinct state restore(snapshot()) into a fresh Metadata, into a replica that had applied any proper prefix of the history, and into a replica that had applied any single command of the alphabet, must give the same canonical state, and the pair is stepped in lock-step through a third of the alphabet and then a seventh of it", depth),
         json!({"part": "a (Metadata::snapshot/restore)"}),
         vec!["bincode stand-in as in C18".into()],
         violation,
